@@ -925,6 +925,16 @@ func Elapsed() int64 {
 	return S.now
 }
 
+// QuantumNs returns the virtual CPU time charged per yield in this run.
+//
+//go:norace
+func QuantumNs() int64 {
+	if S == nil {
+		return 1000
+	}
+	return S.quantum
+}
+
 // Steps returns the global event sequence number (used to stamp histories).
 //
 //go:norace
